@@ -146,6 +146,12 @@ def build_cases(ctx: Ctx, n_random: int, sizes: list[int], with_corpus: bool, mu
         # every clause of C01, C02 and C05 holds on the unchanged tree for all of them (hash seeds 0-4)
         for d in pvlib.enumerate_staged_loop_rejoins():
             defs.append({"kind": "f_adjacent_staged_loop", "blk": d})
+        # 12 forks whose branches end in the same event types (names repeat, as in several corpus files) and 10 staged
+        # choices with an early exit under five names: all clauses of C01, C02, C05 hold for them on the unchanged tree
+        for d in pvlib.enumerate_shared_tails():
+            defs.append({"kind": "f_adjacent_shared_tail", "blk": d})
+        for d in pvlib.enumerate_staged_exits():
+            defs.append({"kind": "f_adjacent_staged_exit", "blk": d})
     if loops_on_exits:
         # C07 only: a loop downstream of another loop's exit, under two namings (the nesting is acyclic, complete and
         # non-overlapping on the unchanged tree for all 16)
